@@ -9,6 +9,7 @@ import Driver.Backoff
 import Driver.Heartbeat
 import Driver.Ack
 import Driver.Mw
+import Driver.Dispatch
 /-
   Line-protocol driver: one request per line on stdin, one canonical answer per line on stdout.
   The same request lines are executed by the Go harness against the real implementation.
@@ -30,6 +31,7 @@ def step (line : String) : String :=
   | "hb" :: rest => hbLine rest
   | "ack" :: rest => ackLine rest
   | "mw" :: rest => mwLine rest
+  | "ds" :: rest => dsLine toks.tail!
   | "rc" :: rest => rcLine toks.tail!
   | _ => "bad-op"
 
